@@ -59,7 +59,7 @@ class Profile:
         self.p_tiny_negative = 0.0    # coordinates in (-5e-7, 0): format_float gives "-0" (C05's defect)
         self.p_zero_view = 0.3        # Strata 2D viewport with u or v equal to 0
         self.p_preserve = 0.5         # build the map with preserve_ids=True (arbitrary, possibly repeated ids)
-        self.big_fixup_ids = 0.0      # fixup indexes >= 100 (read back modulo 100: outside the excluded class)
+        self.big_fixup_ids = 0.1      # fixup indexes >= 100
         for k, v in kw.items():
             if not hasattr(self, k):
                 raise TypeError(k)
